@@ -213,7 +213,10 @@ def rules(ctx, tier):
         appends = [s for s in b.calls() if prog.local_target(s) is not None and
                    "WAL_WRITE" in sem_set(e for e in ctx.may.site_events(s) if ctx._concrete(e)) and
                    "INDEX_MUTATE" not in sem_set(ctx.may.site_events(s))]
-        applies = [s for s in b.calls() if prog.local_target(s) is not None and prog.local_target(s).path in roles]
+        # the apply step: a call that changes the key map and writes no log (whatever functions it is split into)
+        applies = [s for s in b.calls() if prog.local_target(s) is not None and
+                   "INDEX_MUTATE" in sem_set(ctx.may.site_events(s)) and
+                   "WAL_WRITE" not in sem_set(e for e in ctx.may.site_events(s) if ctx._concrete(e))]
         if not appends or not applies:
             continue
         rf = must.rf(b)
@@ -267,13 +270,43 @@ def rules(ctx, tier):
 
 def option_unwrap_discharged(ctx, b, site):
     """`x.as_mut().unwrap()` where the Option place was assigned `Some(..)` or tested non-None on every
-    path: accepted shapes: (a) dominated by an assignment of Some to the same field, on the only path
-    where it could have been None (guarded by is_none / is_none_or)."""
+    path.  Judged on the flat view of the function (the assignment may sit in a helper such as a roll-over step):
+    every occurrence of the unwrap in the view must be discharged."""
+    if getattr(b, "is_flat", False):
+        return _unwrap_discharged_in(ctx, b, site)
+    V = ctx.flat(b)
+    occ = ctx.flat_sites_of(V, site)
+    if not occ:
+        return _unwrap_discharged_in(ctx, b, site)
+    return all(_unwrap_discharged_in(ctx, V, fs) for fs in occ)
+
+
+def _derived_from_node(ctx, b, sl, op, node):
+    """Is the operand `field.as_ref().map(..)`-like: an Option computed from the Option stored at `node`?"""
+    cur = op
+    for _ in range(5):
+        rp = ctx.world.root_place(b, cur)
+        if rp is not None and ctx.world.vfg.node_of_place(b, rp) == node:
+            return True
+        lv = sl.leaves_of_operand(cur)
+        if len(lv) != 1:
+            return False
+        l = list(lv)[0]
+        if l[0] != "call" or (l[1] or "").split("::")[-1] not in ("map", "as_ref", "as_mut", "copied", "cloned",
+                                                                  "as_deref", "as_deref_mut"):
+            return False
+        t = b.blocks[l[2]]["term"]
+        if not t["args"]:
+            return False
+        cur = t["args"][0]
+    return False
+
+
+def _unwrap_discharged_in(ctx, b, site):
     root = ctx.world.root_place(b, site.term["args"][0])
     if root is None:
         return False
     node = ctx.world.vfg.node_of_place(b, root)
-    # field writes of Some(..) to that place in this body
     sl0 = Slicer(ctx.world, b)
     # NonZero::new(nonzero literal).unwrap()
     lv0 = sl0.leaves_of_operand(site.term["args"][0])
@@ -286,30 +319,37 @@ def option_unwrap_discharged(ctx, b, site):
                 good = False
         if good:
             return True
-    somes = []
+    # field writes of Some(..) to that place, found by the original location of each block of the view
+    by_origin = {}
     for w in ctx.world.field_writes:
-        if w.body.path != b.path or w.field != node:
-            continue
-        if w.rv["k"] == "agg" and w.rv.get("vn") == "Some":
-            somes.append(w)
-        elif w.rv["k"] == "use":
-            lv = sl0.leaves_of_operand(w.rv["op"])
-            pl = place_of(w.rv["op"])
-            defs = b.assignments().get(pl["l"], []) if pl is not None and not pl["p"] else []
-            if defs and all(j != "term" and rv["k"] == "agg" and rv.get("vn") == "Some" for (_, j, rv) in defs):
-                somes.append(w)
+        if w.field == node:
+            by_origin.setdefault((w.body.path, w.bb), []).append(w)
+    somes = []
+    for fb in b.normal_blocks():
+        for w in by_origin.get(b.origin_key(fb), ()):
+            stmts = b.blocks[fb]["stmts"]
+            if w.idx >= len(stmts) or stmts[w.idx]["k"] != "assign":
+                continue
+            rv = stmts[w.idx]["rv"]
+            if rv["k"] == "agg" and rv.get("vn") == "Some":
+                somes.append(fb)
+            elif rv["k"] == "use":
+                pl = place_of(rv["op"])
+                defs = b.assignments().get(pl["l"], []) if pl is not None and not pl["p"] else []
+                if defs and all(j != "term" and rv2["k"] == "agg" and rv2.get("vn") == "Some" for (_, j, rv2) in defs):
+                    somes.append(fb)
     if not somes:
         return False
-    # every path to the unwrap either passes a Some-write or takes the "is some and ok" edge of a test on the field
-    sl = Slicer(ctx.world, b)
+    # every path to the unwrap either passes a Some-write or takes the "is some" edge of a test on the field
     tests = []
     for bb in b.normal_blocks():
         c = cfgutil.switch_condition(b, bb)
-        if not c or c[0] != "call":
+        if not c:
             continue
-        if c[1].split("::")[-1] in ("is_none_or", "is_none", "is_some", "is_some_and"):
+        if c[0] == "call" and c[1].split("::")[-1] in ("is_none_or", "is_none", "is_some", "is_some_and"):
             rp = ctx.world.root_place(b, c[2]["args"][0])
-            if rp is not None and ctx.world.vfg.node_of_place(b, rp) == node:
+            if (rp is not None and ctx.world.vfg.node_of_place(b, rp) == node) or \
+                    _derived_from_node(ctx, b, sl0, c[2]["args"][0], node):
                 tt, ff = cfgutil.true_false_edges(b, bb)
                 meth = c[1].split("::")[-1]
                 neg = c[3]
@@ -317,9 +357,41 @@ def option_unwrap_discharged(ctx, b, site):
                 if neg:
                     some_edge = tt if some_edge == ff else ff
                 tests.append((bb, some_edge))
-    removed = [w.bb for w in somes]
-    reachable = cfgutil.reach(b, 0, removed_edges=tests, removed_blocks=removed)
+        elif c[0] == "cmp" and c[1] in ("Eq", "Ne"):
+            # `field.as_ref().map(f) == Some(x)`: on the equal edge the field is Some
+            e = cfgutil.eq_edges(b, bb)
+            if e is None:
+                continue
+            x, y, t_eq, t_ne = e
+            for (p_, q_) in ((x, y), (y, x)):
+                lq = sl0.leaves_of_operand(q_)
+                is_some = bool(lq) and any(l[0] == "agg" and str(l[1]).endswith("Option::Some") for l in lq) or \
+                    _is_some_aggregate(b, q_)
+                if is_some and _derived_from_node(ctx, b, sl0, p_, node) and t_eq is not None:
+                    tests.append((bb, t_eq))
+    reachable = cfgutil.reach(b, 0, removed_edges=tests, removed_blocks=somes)
     return site.bb not in reachable
+
+
+def _is_some_aggregate(b, op):
+    """The operand is (a reference to) a local built as `Some(..)`."""
+    pl = place_of(op)
+    for _ in range(4):
+        if pl is None or pl["p"] not in ([], ["deref"]):
+            return False
+        defs = b.assignments().get(pl["l"], [])
+        if len(defs) != 1 or defs[0][1] == "term":
+            return False
+        rv = defs[0][2]
+        if rv["k"] == "agg":
+            return rv.get("vn") == "Some"
+        if rv["k"] == "ref":
+            pl = rv["place"]
+        elif rv["k"] == "use":
+            pl = place_of(rv["op"])
+        else:
+            return False
+    return False
 
 
 def owns_bufwriter(prog, ty):
@@ -395,6 +467,36 @@ def failed_writer_typestate(ctx, r, must):
     return n
 
 
+def _map_or_increments(ctx, b, sl, leaf):
+    """`opt.map_or(default, closure)`: default is a constant, the closure returns saturating_add(its argument, 1),
+    opt is the result of a call (the replayed maximum)."""
+    prog = ctx.prog
+    t = b.blocks[leaf[2]]["term"]
+    if len(t["args"]) < 3:
+        return False
+    opt = sl.leaves_of_operand(t["args"][0])
+    dflt = sl.leaves_of_operand(t["args"][1])
+    if not opt or not all(x[0] == "call" for x in opt) or not dflt or not all(x[0] == "const" for x in dflt):
+        return False
+    site = Site(b, leaf[2], t)
+    for tg, how in prog.call_targets(site):
+        if how != "extern-cb":
+            continue
+        csl = Slicer(ctx.world, tg)
+        rl = csl.leaves_of_place({"l": 0, "p": []})
+        if len(rl) != 1:
+            return False
+        x = list(rl)[0]
+        if not (x[0] == "call" and x[1].endswith("saturating_add")):
+            return False
+        t2 = tg.blocks[x[2]]["term"]
+        base = csl.leaves_of_operand(t2["args"][0])
+        inc = csl.leaves_of_operand(t2["args"][1])
+        return bool(base) and all(y[0] == "param" and y[1] >= 2 for y in base) and \
+            bool(inc) and all(y[0] == "const" and y[1] == 1 for y in inc)
+    return False
+
+
 def version_counter(ctx, r):
     """Writes of the WAL manager's version counter field: constructor, allocator (previous + 1, saturating),
     post-replay (maximum seen + 1)."""
@@ -417,6 +519,7 @@ def version_counter(ctx, r):
             lv = sl.leaves_of_operand(w.rv["op"]) if w.rv["k"] == "use" else {("unknown", w.rv["k"], ())}
             ok = True
             desc = []
+            incremented_in_closure = False
             for l in lv:
                 if l[0] == "call" and l[1].endswith("saturating_add"):
                     t = w.body.blocks[l[2]]["term"]
@@ -428,10 +531,14 @@ def version_counter(ctx, r):
                     ok = ok and inc_ok and base_ok
                 elif l[0] == "const":
                     desc.append("const %s" % (l[1],))
+                elif l[0] == "call" and l[1].endswith("Option::map_or") and _map_or_increments(ctx, w.body, sl, l):
+                    # `highest.map_or(FIRST, |v| v.saturating_add(1))`
+                    incremented_in_closure = True
+                    desc.append("map_or(first version, |v| saturating_add(v, 1))")
                 else:
                     ok = False
                     desc.append(fmt_leaf(l))
-            if not any(l[0] == "call" and l[1].endswith("saturating_add") for l in lv):
+            if not any(l[0] == "call" and l[1].endswith("saturating_add") for l in lv) and not incremented_in_closure:
                 ok = False
                 desc.append("(no increment of a previous/maximum version)")
             r.check(ok, "counter-write:%s" % w.body.path.split("::")[-1], w.body,
